@@ -17,6 +17,10 @@ Oracle (implementation alone): shapes, every cell in exactly one bicluster,
 membership agrees with labels, column module == fresh copy fitted alone on
 `prepare_data(X.T)`.  An exception on a matrix that `prepare_data`/`validate_data`
 accepted is a violation ("after fit on any data matrix").
+The fitted estimator is then *read* through its public read-only methods (get_shape / get_indices / get_submatrix,
+visualize() on the Agg backend): labels, rows_, columns_ and the cluster counts must be what they were, the accessors must
+return the label pre-images, and the membership oracle is run again (`after_reads`; every third case of the two main
+streams, every case of the epochs / dual / topo-rows streams).
 """
 from __future__ import annotations
 
@@ -155,6 +159,131 @@ def classify(e, X, bm):
         if nr == nc and (widths == 1).any():
             return SIG_WIDTH1
     return f"BARTMAP.fit:{exc_enum(e)}:{fns[-1] if fns else '?'}"
+
+
+# ------------------------------------------------------------------ read-only public methods on a fitted estimator
+
+def _fitted_state(bm):
+    """copies of what the property speaks about, as the estimator reports it now"""
+    return {"row_labels_": np.array(bm.row_labels_, copy=True), "column_labels_": np.array(bm.column_labels_, copy=True),
+            "rows_": np.array(bm.rows_, copy=True), "columns_": np.array(bm.columns_, copy=True),
+            "n_row_clusters": int(bm.n_row_clusters), "n_column_clusters": int(bm.n_column_clusters)}
+
+
+def _membership_holds(st, nr, nc):
+    """the property's own clauses (shapes, one bicluster per cell, bicluster k=(a,b) == label pre-images) on a state"""
+    na, nb = st["n_row_clusters"], st["n_column_clusters"]
+    rl, cl, rows_, cols_ = st["row_labels_"], st["column_labels_"], st["rows_"], st["columns_"]
+    if rows_.shape != (na * nb, nr) or cols_.shape != (na * nb, nc) or rl.shape != (nr,) or cl.shape != (nc,):
+        return False
+    if not np.all(rows_.astype(int).T @ cols_.astype(int) == 1):
+        return False
+    return all(np.array_equal(rows_[a * nb + b], rl == a) and np.array_equal(cols_[a * nb + b], cl == b)
+               for a in range(na) for b in range(nb))
+
+
+def after_reads(ctx, r, bm, X, rep, where):
+    """"After BARTMAP.fit ... membership agrees with row_labels_ and column_labels_" is a statement about the fitted
+    estimator, so it has to survive the public methods that only *read* it: sklearn's BiclusterMixin accessors
+    (get_shape / get_indices / get_submatrix) and the plotting helper visualize() (Agg backend, nothing is shown).
+    After each call the reported labels / rows_ / columns_ / cluster counts (and the caller's matrix) must be what
+    they were, the accessors must return the label pre-images, and the membership oracle is run again at the end."""
+    cov = ctx.cov
+    nr, nc = X.shape
+    before = _fitted_state(bm)
+    pre_ok = _membership_holds(before, nr, nc)
+    n_bic = before["rows_"].shape[0] if before["rows_"].ndim == 2 else 0
+    if not pre_ok:
+        # the caller's own oracle judges that state (e.g. rows a pruning row module labelled -1); the reads must still
+        # leave it alone, only the comparisons with the label pre-images are dropped
+        cov.hit(f"reads:{where}:membership-already-broken-before-the-reads")
+        if n_bic == 0 or before["columns_"].shape[:1] != (n_bic,):
+            return
+    X0 = X.copy()
+    na, nb = before["n_row_clusters"], before["n_column_clusters"]
+    rl, cl = before["row_labels_"], before["column_labels_"]
+    interleaved = bool(np.any(np.diff(rl) < 0) or np.any(np.diff(cl) < 0))
+    rep = {**rep, "where": where, "row_labels": rl.tolist(), "column_labels": cl.tolist(), "na": na, "nb": nb}
+
+    def unchanged(method, call):
+        now = _fitted_state(bm)
+        for name, old in before.items():
+            new = now[name]
+            same = (old == new) if isinstance(old, int) else \
+                (old.shape == new.shape and old.dtype == new.dtype and np.array_equal(old, new))
+            if not same:
+                ctx.issue("violation", f"BARTMAP.{method}:mutates:{name}",
+                          f"{where}: {name} of the fitted estimator changed during the read-only call {call}: "
+                          f"{old.tolist() if hasattr(old, 'tolist') else old} -> "
+                          f"{new.tolist() if hasattr(new, 'tolist') else new}"[:600],
+                          {**rep, "call": call})
+                return False
+        if not np.array_equal(X0, X):
+            ctx.issue("violation", f"BARTMAP.{method}:mutates:X", f"{where}: the caller's matrix changed during {call}",
+                      {**rep, "call": call, "X_before": X0})
+            return False
+        return True
+
+    ks = sorted({0, n_bic - 1, r.randrange(n_bic), r.randrange(n_bic)})
+    ok = True
+    for k in ks:
+        a, b = divmod(k, max(nb, 1))
+        want_r, want_c = np.flatnonzero(rl == a), np.flatnonzero(cl == b)
+        for method, fn, want, eq in (
+                ("get_shape", lambda: bm.get_shape(k), (len(want_r), len(want_c)), lambda g, w: tuple(g) == w),
+                ("get_indices", lambda: bm.get_indices(k), (want_r, want_c),
+                 lambda g, w: len(g) == 2 and np.array_equal(g[0], w[0]) and np.array_equal(g[1], w[1])),
+                ("get_submatrix", lambda: bm.get_submatrix(k, X), X0[np.ix_(want_r, want_c)],
+                 lambda g, w: np.asarray(g).shape == w.shape and np.array_equal(np.asarray(g), w))):
+            call = f"{method}({k}" + (", X)" if method == "get_submatrix" else ")")
+            try:
+                with quiet():
+                    got = fn()
+            except Exception as e:
+                ctx.issue("violation", f"BARTMAP.{method}:{exc_enum(e)}", f"{where}: {call} raised {e!r} on a fitted estimator",
+                          {**rep, "call": call})
+                ok = False
+                continue
+            cov.hit(f"reads:{method}")
+            if pre_ok and not eq(got, want):
+                ctx.issue("violation", f"BARTMAP.{method}:membership",
+                          f"{where}: {call} of bicluster ({a},{b}) is not the pre-image of (row_labels_=={a}, "
+                          f"column_labels_=={b})", {**rep, "call": call})
+                ok = False
+            ok = unchanged(method, call) and ok
+    # the plotting helper, on the non-interactive backend; figures it opened are closed again
+    import matplotlib
+    if matplotlib.get_backend().lower() != "agg":
+        matplotlib.use("Agg", force=True)
+    import matplotlib.pyplot as plt
+    figs = set(plt.get_fignums())
+    cmap = r.choice([None, None, "viridis"])
+    call = "visualize()" if cmap is None else f"visualize(cmap={cmap!r})"
+    try:
+        with quiet():
+            bm.visualize() if cmap is None else bm.visualize(cmap=cmap)
+        cov.hit("reads:visualize")
+        if interleaved:
+            cov.hit("reads:visualize:labels-not-ascending")
+        ok = unchanged("visualize", call) and ok
+    except Exception as e:
+        ctx.issue("violation", f"BARTMAP.visualize:{exc_enum(e)}", f"{where}: {call} raised {e!r} on a fitted estimator",
+                  {**rep, "call": call})
+        ok = False
+    finally:
+        for f in set(plt.get_fignums()) - figs:
+            plt.close(f)
+    # the membership oracle again, on what the estimator reports now
+    if pre_ok and not _membership_holds(_fitted_state(bm), nr, nc):
+        ctx.issue("violation", "BARTMAP.fit+reads:membership",
+                  f"{where}: after get_shape/get_indices/get_submatrix/{call} the biclusters rows_/columns_ no longer equal "
+                  f"the pre-images of row_labels_ {np.asarray(bm.row_labels_).tolist()} / column_labels_ "
+                  f"{np.asarray(bm.column_labels_).tolist()} (they did right after fit: {rl.tolist()} / {cl.tolist()})"[:700],
+                  {**rep, "call": call})
+        ok = False
+    cov.hit(f"reads:{where}:" + ("state-kept" if ok else "state-changed"))
+    if interleaved and na >= 2 and nb >= 2:
+        cov.hit("reads:interleaved-row-and-column-clusters>=2")
 
 
 # ------------------------------------------------------------------ one case
@@ -370,6 +499,8 @@ def run_case(ctx, idx, r, stream, lines, expect, stats):
     if len(cov.samples) < 3:
         cov.sample({"stream": stream, "pair": tag, "eta": eta, "shape": [nr, nc], "row_labels": rl,
                     "column_labels": cl, "rows_": bits(rows_), "columns_": bits(cols_)})
+    if idx % 3 == 0:
+        after_reads(ctx, gen.rng_for(ctx.seed, "C17-reads/" + stream, idx), bm, X, rep, stream)
 
 
 def synthetic_rc(ctx, r, lines, expect):
@@ -421,6 +552,7 @@ def multi_epoch(ctx):
         elif any(not (np.array_equal(rows_[a * nb + b], rl == a) and np.array_equal(cols_[a * nb + b], cl == b))
                  for a in range(na) for b in range(nb)):
             ctx.issue("violation", "BARTMAP.fit:membership", f"max_iter={k}: a bicluster differs from the label pre-images", rep)
+        after_reads(ctx, gen.rng_for(ctx.seed, "C17-reads/epochs", i), bm, X, rep, "epochs")
         cov.hit("epochs:fit-returned")
         cov.case(("epochs", n, eta, k, i), True)
 
@@ -484,6 +616,7 @@ def dual_modules(ctx):
             elif any(not (np.array_equal(rows_[a * nb + b], rl == a) and np.array_equal(cols_[a * nb + b], cl == b))
                      for a in range(na) for b in range(nb)):
                 ctx.issue("violation", "BARTMAP.fit:dual:membership", "a bicluster differs from the label pre-images", rep)
+        after_reads(ctx, gen.rng_for(ctx.seed, "C17-reads/dual", i), bm, X, rep, "dual")
         cov.hit("dual:fit-returned" + (":merged-categories" if merged else ""))
         cov.case(("dual", nr, nc, eta, side, i), merged)
 
@@ -588,5 +721,16 @@ def pruning_row_module(ctx):
             ctx.issue("violation", "BARTMAP.fit:topo-rows:membership",
                       f"a bicluster differs from the pre-images of row_labels_ {rl.tolist()} / column_labels_ {cl.tolist()} "
                       f"(TopoART row module, pruning every {tau} samples)", rep)
+        else:
+            cover = rows_.astype(int).T @ cols_.astype(int)
+            if not np.all(cover == 1):
+                a_, b_ = [int(t) for t in np.argwhere(cover != 1)[0]]
+                orphan = bool((rl < 0).any())
+                ctx.issue("violation", "BARTMAP.fit:topo-rows:" + ("orphan-rows-in-no-bicluster" if orphan else "partition"),
+                          f"cell ({a_},{b_}) lies in {int(cover[a_, b_])} biclusters; row_labels_ {rl.tolist()} "
+                          + ("(rows the pruning TopoART row module left without a category, label -1, belong to no bicluster)" if orphan else ""), rep)
+            else:
+                cov.hit("topo-rows:partition-ok")
+        after_reads(ctx, gen.rng_for(ctx.seed, "C17-reads/topo-rows", i), bm, X, rep, "topo-rows")
         cov.hit("topo-rows:fit-returned" + (":relabelled" if (rl < 0).any() or len(bm.module_a.W) < rl.max() + 2 else ""))
         cov.case(("topo-rows", n, eta, tau, phi, i), True)
